@@ -572,6 +572,23 @@ class lsrk4(LSrkmodelHH):
 # IMPLICIT MODELS
 # --------------------------------------------------------------------
 
+def _linsolve(mat, rhs):
+    """solve mat.x = rhs: LU with partial pivoting (numpy.linalg.solve), checked by its residual, since
+    element growth makes it unstable for some well conditioned systems (upwind biased schemes of a
+    left running wave at CFL 5-10 on a few hundred cells); QR factorization in that case"""
+    try:
+        x = np.linalg.solve(mat, rhs)
+        if np.linalg.norm(rhs - mat @ x) <= 1.e-10 * (np.linalg.norm(mat, 1) * np.linalg.norm(x) + np.linalg.norm(rhs)):
+            return x
+        if not np.all(np.isfinite(x)) and not (np.all(np.isfinite(mat)) and np.all(np.isfinite(rhs))):
+            return x # non finite system: nothing to improve
+    except np.linalg.LinAlgError:
+        if np.linalg.matrix_rank(mat) < mat.shape[0]: # actually singular
+            raise
+    q, r = np.linalg.qr(mat)
+    return np.linalg.solve(r, q.T @ rhs)
+
+
 
 class implicitmodel(timemodel):
     """generic class for implicit models
@@ -632,13 +649,13 @@ class implicitmodel(timemodel):
         self.jacobian_use = 0
         return self.jacobian
 
-    def solve_implicit(self, field, dtloc, invertion=np.linalg.solve, theta=1.0, xi=0):
+    def solve_implicit(self, field, dtloc, invertion=_linsolve, theta=1.0, xi=0):
         """
 
         Args:
           field:
           dtloc:
-          invertion:  (Default value = np.linalg.solve)
+          invertion:  (Default value = _linsolve)
           theta:  (Default value = 1.)
           xi:  (Default value = 0)
 
